@@ -833,8 +833,15 @@ def registry_readers(ctx, R, allowed=None):
                 bc = prog.cls(base_name) if base_name else None
                 if bc is None and not (isinstance(base, ast.Name) and base.id in ("cls",)):
                     # an attribute of some object that happens to carry the name: is it the registry?  Only when the object's
-                    # class gives it that meaning (a property returning the registry is judged where it is defined)
-                    continue
+                    # class gives it that meaning (a property returning the registry is judged where it is defined).  When no other
+                    # class of the package defines an attribute of that name, the object can only be a RequireCommand: reading the
+                    # class attribute through an instance is reading the registry
+                    others = [k for k in prog.all_classes() if k.name != "RequireCommand" and (
+                        "loaded_extensions" in k.methods or "loaded_extensions" in k.attrs or any(
+                            isinstance(x, ast.Attribute) and x.attr == "loaded_extensions" and isinstance(x.ctx, ast.Store) and isinstance(x.value, ast.Name)
+                            and x.value.id == "self" for m_ in k.methods.values() for x in ast.walk(m_.node)))]
+                    if others:
+                        continue
                 nread += 1
                 if f.qualname in allowed or f is R.reset:
                     continue
